@@ -845,9 +845,20 @@ func c01Framing(c *core.Ctx) {
 				continue
 			}
 			if vc, _, ok := core.CallResult(sc.Call.Args[2]); ok {
-				if args, unp := core.VariadicArgs(vc.Call.Args[len(vc.Call.Args)-1]); unp && len(args) == 1 {
-					if lx, isLen := lenArg(core.Strip(args[0])); isLen && lx == b {
-						okCL = true
+				ci := core.InfoOf(&vc.Call)
+				switch {
+				case ci.Is("fmt.Sprintf") || ci.Is("fmt.Sprint"):
+					if args, unp := core.VariadicArgs(vc.Call.Args[len(vc.Call.Args)-1]); unp && len(args) == 1 {
+						if lx, isLen := lenArg(core.Strip(args[0])); isLen && (lx == b || core.SameVal(lx, b)) {
+							okCL = true
+						}
+					}
+				case ci.Is("strconv.Itoa") || ci.Is("strconv.FormatInt") || ci.Is("strconv.FormatUint"):
+					// decimal rendering of len(b)
+					if ci.Is("strconv.Itoa") || isConstInt(vc.Call.Args[1], 10) {
+						if lx, isLen := lenArg(stripCT(vc.Call.Args[0])); isLen && (lx == b || core.SameVal(lx, b)) {
+							okCL = true
+						}
 					}
 				}
 			}
@@ -905,4 +916,9 @@ func bufferish(t types.Type, depth int) string {
 		}
 	}
 	return ""
+}
+
+func isConstInt(v ssa.Value, k int64) bool {
+	n, ok := core.ConstInt(v)
+	return ok && n == k
 }
